@@ -217,6 +217,7 @@ pub enum Profile {
     Filter,   // C17
     Fifo,     // C19: append-only + fifo
     Reopen,   // C04: reopen at many positions
+    Reloc,    // C08/C09: blob relocation: few keys, several live versions, files made partly stale
     All,
 }
 impl Profile {
@@ -231,6 +232,7 @@ impl Profile {
             "filter" => Profile::Filter,
             "fifo" => Profile::Fifo,
             "reopen" => Profile::Reopen,
+            "reloc" => Profile::Reloc,
             _ => Profile::All,
         }
     }
@@ -248,7 +250,7 @@ fn gen_bd(rng: &mut Rng, nkeys: usize) -> Bd {
 }
 
 pub fn gen_case(rng: &mut Rng, profile: Profile, blob: bool, max_ops: u64) -> Case {
-    let nkeys = 6 + rng.below(14) as usize;
+    let nkeys = if profile == Profile::Reloc { 3 + rng.below(3) as usize } else { 6 + rng.below(14) as usize };
     let cfg = Cfg {
         block_size: *rng.pick(&[1u32, 16, 64, 256, 4096]),
         restart: *rng.pick(&[1u8, 2, 16]),
@@ -260,7 +262,7 @@ pub fn gen_case(rng: &mut Rng, profile: Profile, blob: bool, max_ops: u64) -> Ca
         cache_kb: *rng.pick(&[0u64, 1, 8192]),
         fd_cap: *rng.pick(&[0u64, 1, 2, 64]),
         filter_seed: if profile == Profile::Filter || (profile == Profile::All && rng.chance(1, 4)) { Some(rng.below(100_000)) } else { None },
-        blob: if blob { Some((*rng.pick(&[0u32, 1, 8, 12, 1000]), *rng.pick(&[1u64, 64, 1024]))) } else { None },
+        blob: if blob { if profile == Profile::Reloc { Some((*rng.pick(&[0u32, 8]), *rng.pick(&[40u64, 100, 200]))) } else { Some((*rng.pick(&[0u32, 1, 8, 12, 1000]), *rng.pick(&[1u64, 64, 1024]))) } } else { None },
         nkeys,
         key_seed: rng.next() % 1_000_000,
     };
@@ -272,6 +274,17 @@ pub fn gen_case(rng: &mut Rng, profile: Profile, blob: bool, max_ops: u64) -> Ca
         let r = rng.below(1000);
         let k = rng.below(nk) as usize;
         let op = match profile {
+            Profile::Reloc => match r {
+                0..=349 => Op::Insert(k, *rng.pick(&[6usize, 40, 40])),
+                350..=399 => Op::Remove(k),
+                400..=599 => Op::Flush(Wm::Zero),
+                600..=699 => Op::Major(1, Wm::Zero),
+                700..=799 => Op::Major(u64::MAX, *rng.pick(&[Wm::Zero, Wm::Zero, Wm::Top])),
+                800..=919 => Op::DropRange(Bd::I(k), Bd::I(k)),
+                920..=959 => Op::Leveled(1, 64, Wm::Zero),
+                960..=979 => Op::SnapOpen,
+                _ => Op::Reopen,
+            },
             Profile::Fifo => match r {
                 0..=599 => Op::Insert(k, *rng.pick(&[0usize, 6, 40])),
                 600..=799 => Op::Flush(Wm::Zero),
@@ -1241,7 +1254,9 @@ fn run_case_inner(case: &Case, runner: &mut Runner) -> Outcome {
             }
         }
         if let Err(e) = model_res {
-            out.disagreement = Some(e);
+            if out.disagreement.is_none() {
+                out.disagreement = Some(e);
+            }
         }
         // filter log -> oracle (C17)
         {
@@ -1307,8 +1322,13 @@ fn run_case_inner(case: &Case, runner: &mut Runner) -> Outcome {
             }
             out.oracle_failures.extend(fails);
         }
-        if out.disagreement.is_some() || !out.oracle_failures.is_empty() {
+        if !out.oracle_failures.is_empty() {
             break;
+        }
+        if out.disagreement.is_some() && runner.drv.is_some() {
+            // model and implementation have parted: keep executing the history on the real tree alone, looking for an
+            // input on which the property oracle itself fails
+            runner.drv = None;
         }
     }
     // non-triviality: at least one compaction that changed the version and ≥ 2 levels/runs populated at some point
